@@ -46,6 +46,10 @@ def ev_scenarios():
     # the last event of the process goes away in one thread while another thread registers its first one
     S["rxoff-race"] = ["O ev 1", "O ev 2", "S ev_reg 1", "S spawn 1", "T 1 iv_init", "T 1 ev_reg 2", "T 1 set_flag 2", "T 1 iv_main",
                        "T 1 iv_deinit", "S ev_unreg 1", "S wait_flag 2", "S ev_post 2", "R ev 2 0 1 ev_unreg 2"]
+    # a thread's last event goes away while another owner still has one, then the thread registers again
+    # (its wake-up path is set up a second time) and posts to the other owner
+    S["rxoff-rereg"] = ["O ev 1", "O ev 2", "O ev 3", "S ev_reg 2", "S spawn 1", "T 1 iv_init", "T 1 ev_reg 1", "T 1 ev_unreg 1",
+                        "T 1 ev_reg 3", "T 1 ev_post 2", "T 1 ev_unreg 3", "T 1 iv_deinit", "R ev 2 0 1 ev_unreg 2"]
     # a second owner thread with its own loop, posted to by the main thread
     S["second-owner"] = ["O ev 1", "O ev 2", "S ev_reg 1", "S spawn 1", "T 1 iv_init", "T 1 ev_reg 2", "T 1 set_flag 2", "T 1 iv_main",
                          "T 1 iv_deinit", "S wait_flag 2", "S ev_post 2", "R ev 2 0 1 ev_unreg 2"]
